@@ -8,6 +8,12 @@ from polys import *
 def gen_configurator(rng, quick=True, int_leaf=False, nested=True, top_items=False):
     """AST of a StingyConfigurator over boolean items (optionally one integer item `t`)"""
     items = list("abcdefgh")[:rng.randint(3, 5 if quick else 7)]
+    # item ids come in several shapes; some look like generated ids ("VAR…"), some contain blanks / dashes / non-ASCII
+    style = rng.random()
+    if style < 0.15:
+        items = [rng.choice(["VAR-", "VARIANT_", "VAR"]) + x for x in items]
+    elif style < 0.3:
+        items = [rng.choice(["", "x ", "Ω", "item-"]) + x for x in items]
     k = [0]
     def rid():
         k[0] += 1
@@ -49,6 +55,14 @@ def gen_configurator(rng, quick=True, int_leaf=False, nested=True, top_items=Fal
     for _ in range(rng.randint(1, 3 if quick else 4)):
         r = rule(1)
         rules.append(r)
+    if nested and rng.random() < 0.3:
+        # one compound object used by two rules: as the only non-default alternative of a defaulted choice, and elsewhere
+        shared = {"$k": 9000 + rng.randint(1, 999), "c": rng.choice(["All", "Any", "AtMost"]), "args": group(2)}
+        if shared["c"] == "AtMost": shared["v"] = 1
+        if rng.random() < 0.5: shared["id"] = rid()
+        dflt_item = leaf()
+        rules.append({"c": rng.choice(["ccAny", "ccXor"]), "args": [dflt_item, shared], "default": [dflt_item["id"]], **({"id": rid()} if rng.random() < 0.7 else {})})
+        rules.append({"c": "Any", "args": [shared, {"c": "All", "args": group(2)}], **({"id": rid()} if rng.random() < 0.7 else {})})
     if int_leaf:
         lo = rng.randint(0, 2)
         rules.append({"c": "AtLeast", "v": rng.randint(1, 3), "args": [{"c": "var", "id": "t", "lo": lo, "hi": lo + rng.randint(2, 4)},
